@@ -165,7 +165,9 @@ let handle (cmd : string) (rest : string) : string =
         let succs = List.filter_map (fun l -> step true s l) internal in
         if succs = [] then [ s ] else List.concat_map explore succs in
       let uniq l = List.sort_uniq compare l in
-      let states = ref [ init ] in
+      (* schedules without the token V start with Serve already running *)
+      let states = ref [ (if String.contains rest 'V' then init else apply init LServeStart) ] in
+      let serving = ref (not (String.contains rest 'V')) in
       let mutex_held = ref false and deferred = ref [] in
       String.iter
         (fun tok ->
@@ -182,8 +184,11 @@ let handle (cmd : string) (rest : string) : string =
             | 'j' -> [ LReqEnd (S O) ]
             | 'a' -> [ LSessClose O; LSessDone O ]
             | 'b' -> [ LSessClose (S O); LSessDone (S O) ]
-            | 'S' -> mutex_held := true; [ LShCloseDone ]
-            | 'k' -> mutex_held := false; let d = !deferred in deferred := []; [ LShCloseListener ] @ d @ [ LShStartWaiter ]
+            | 'V' -> serving := true; [ LServeStart ]
+            | 'S' ->
+                if !serving then (mutex_held := true; [ LShCloseDone ])
+                else [ LShCloseDone; LShCloseListener; LShStartWaiter ]     (* no listener stored yet: nothing to close, nothing holds it *)
+            | 'k' -> if !mutex_held then (mutex_held := false; let d = !deferred in deferred := []; [ LShCloseListener ] @ d @ [ LShStartWaiter ]) else []
             | 'x' -> [ LCtxExpire ]
             | _ -> failwith "token" in
           states := uniq (List.concat_map (fun s -> explore (apply_all s labels)) !states))
